@@ -74,6 +74,10 @@ def strategy_(draw, tier):
         for t in g['txs']:
             if t.get('cds') and 'cds_start_NF' in t.get('tags', []) and d.chance(0.7):
                 t['protein'] = 'X' * d.randint(1, 2) + ref0.protein(t['id'])
+            elif t.get('cds') and d.chance(0.2) and len(ref0.protein(t['id'])) >= 6:
+                # a proteome entry with an internal '*': stays coding unless
+                # --invalid-protein-as-noncoding is given; its pool is the digest up to '*'
+                t['stop_in_protein'] = d.randint(2, len(ref0.protein(t['id'])) - 2)
     ops = [['gen', d.randint(0, len(PARAMS) - 1), False]]
     for _ in range(d.randint(2, 8)):
         r = d.rng.random()
